@@ -79,7 +79,7 @@ def gen_bank(rng):
         k = rng.choices(OPS, weights)[0]
         op = {'op': k, 'n': rng.randrange(15), 'm': rng.randrange(15), 'mode': rng.choice(modes), 'v': rng.getrandbits(32),
               'imm': rng.getrandbits(8), 'kind': rng.choice(['svc', 'und', 'dabt', 'irq', 'fiq', 'smc', 'hyptrap']), 'list': rng.getrandbits(15) | 1 << rng.randrange(15),
-              'how': rng.choice(['subs', 'movs', 'eret']), 'ns': rng.getrandbits(1)}
+              'how': rng.choice(['subs', 'movs', 'eret', 'ldm']), 'ns': rng.getrandbits(1)}
         ops.append(op)
     core = {'config': cfg, 'devices': devices, 'regs': regs, 'words': [], 'force': None, 'no_poke': []}
     return {'scenario': 'bank_walk', 'cores': [core], 'ops': ops, 'thumb': thumb, 'events': [], 'max_ticks': 10 ** 9, 'stop_at_done': False}
@@ -161,6 +161,11 @@ class Walk:
 
     def secure(self):
         return (not self.sec) or not (self.r.scr.value & 1) or self.mode() == BK.MON
+
+    def data_base(self):
+        """a block of the data page the next instruction word will not be placed in (the PC of a history may point anywhere, also into the data page)"""
+        pc = self.r.pc_store_value()
+        return G.DATA + 0x400 if not (G.DATA + 0x300 <= pc < G.DATA + 0x500) else G.DATA + 0xC00
 
     def on_entry(self, kind, exp, s):
         m = self.model
@@ -359,6 +364,22 @@ class Walk:
                     w = T.ERET
                 else:
                     return 'skip'          # ERET A1 is not implemented in armulator
+            elif how == 'ldm' and not self.thumb:
+                # LDM rn, {list, pc}^ (exception return): the listed registers are those of the CURRENT mode, the PC word follows them
+                rn = n % 8
+                lst = (op['list'] & 0x7FFF & ~(1 << rn)) or (2 if rn != 1 else 4)
+                base = self.data_base()
+                r.set(rn, base)
+                m.set(rn, cur, base)
+                self.named.add(BK.phys(rn, cur))
+                a = base
+                for i in range(15):
+                    if lst >> i & 1:
+                        m.set(i, cur, int.from_bytes(M.peek(self.arm, a, 4), 'little'))
+                        self.named.add(BK.phys(i, cur))
+                        a += 4
+                M.poke(self.arm, a, (G.CODE + 0x100).to_bytes(4, 'little'))
+                w = A.ldstm(1, rn, lst | 0x8000, p=0, u=1, w=0, s=1)
             elif how == 'movs' and not self.thumb:
                 w = A.movs_pc_lr()
             else:
@@ -370,7 +391,8 @@ class Walk:
                 return 'skip'
             rn = 8 + n % 5 if cur != BK.FIQ else n % 8
             lst = op['list'] & ~(1 << rn) or 1
-            base = G.DATA + 0x800
+            pc_ = r.pc_store_value()
+            base = G.DATA + 0x800 if not (G.DATA + 0x700 <= pc_ < G.DATA + 0x900) else G.DATA + 0xE00
             r.set(rn, base)
             m.set(rn, cur, base)
             if self.thumb:
@@ -392,7 +414,7 @@ class Walk:
             lst = op['list'] & ~(1 << rn) & 0x7FFF or 1
             if lst >> rn & 1:
                 return 'skip'
-            base = G.DATA + 0x400
+            base = self.data_base()
             r.set(rn, base)
             m.set(rn, cur, base)
             ok = self.exec_word(A.ldstm(1, rn, lst, p=0, u=1, w=0, s=1))
